@@ -114,6 +114,7 @@ def P(pid):
             ('RF-G2 role positions (prover)', rf_rand.rule_role_projection, 6),
             ('RF-F proof_gen panic census', lambda c: rf_panic.rule_panic_census(c, entries=[T.POK + 'proof_gen'], with_serde=False, min_functions=12), 40),
             ('RF-D success values are computed from the inputs they bind', lambda c: rf_frame.rule_result_binding(c, only=['::proof_gen']), 6),
+            ('RF-L index lists are validated against their own message list', rf_frame.rule_index_lists_validated, 5),
         ]
         meta['explanation'] = ('Decides completely: None==empty for every optional input of proof_gen / proof_verify; proof length = 272 + 32 * U from the '
                                'writer layout and the one-push-per-undisclosed-message loop; reader offsets equal writer offsets. Decides as necessary conditions '
@@ -133,6 +134,7 @@ def P(pid):
             ('RF-B index translation agreement', rf_codec.rule_index_translation, 2),
             ('RF-F blind generation panic census', lambda c: rf_panic.rule_panic_census(c, entries=[T.POK + 'blind_proof_gen', T.BSIG + 'blind_sign'], with_serde=False, min_functions=15), 60),
             ('RF-D success values are computed from the inputs they bind', lambda c: rf_frame.rule_result_binding(c, only=['blind_sign','commit','blind_proof_gen']), 15),
+            ('RF-L index lists are validated against their own message list', rf_frame.rule_index_lists_validated, 5),
         ]
         meta['explanation'] = ('Decides completely: None==empty for the optional octet/list inputs of the five blind entry points. Decides as necessary conditions: '
                                'all blind entry points reach only API_ID_BLIND (+ BLIND_ for blind generators) at every role, the commit randomness request M + 2 '
@@ -259,6 +261,7 @@ def P(pid):
         R = [
             ('RF-I no opening in the serialised proof types', CL.rule_no_opening_serialised, 4),
             ('RF-G2 hidden attributes are always blinded (mask selection)', CL.rule_mask_vectors, 8),
+            ('RF-G2 sibling commitments use independent randomness', CL.rule_sibling_randomness, 2),
         ]
         meta['explanation'] = ('Decided completely for the structural reading: the leaves the (derived) Serialize impls of CL03ZKPoK and CL03PoKSignature emit are enumerated from the resolved impl bodies; '
                                'none may be the randomness of a commitment to a hidden value. On this tree seven such leaves are emitted (known findings: the repair changes the wire format). '
@@ -287,36 +290,40 @@ ALL = ['C%02d' % i for i in range(1, 20)]
 # positive controls (thorough tier): patches that break the property; the property's own quick check must report each of them.
 # unfix-* = reverse of a `fix:` commit of /repo; seeded/* = changes written by independent sub-agents (see DESIGN.md section 6).
 CONTROLS = {
-    'C01': ['seeded/C01-a/patch.diff'],
-    'C02': ['seeded/C02-a/patch.diff', 'seeded/C04-a/patch.diff'],
-    'C03': ['seeded/C03-a/patch.diff', 'seeded/C09-a/patch.diff'],
-    'C04': ['selftest/mutants/unfix-4e31b69.patch', 'seeded/C04-a/patch.diff'],
-    'C05': ['seeded/C05-a/patch.diff'],
-    'C06': ['seeded/C06-a/patch.diff'],
-    'C07': ['seeded/C07-a/patch.diff'],
-    'C08': ['selftest/mutants/unfix-928b770.patch', 'selftest/mutants/unfix-05eab20.patch', 'selftest/mutants/unfix-6597d81.patch', 'seeded/C08-a/patch.diff'],
-    'C09': ['selftest/mutants/unfix-928b770.patch', 'selftest/mutants/unfix-4e31b69.patch', 'seeded/C09-a/patch.diff'],
-    'C10': ['seeded/C10-a/patch.diff'],
-    'C11': ['seeded/C11-a/patch.diff'],
-    'C12': ['selftest/mutants/unfix-ae1f505.patch', 'seeded/C12-a/patch.diff'],
-    'C13': ['selftest/mutants/unfix-4faa0f0.patch', 'seeded/C13-a/patch.diff'],
-    'C14': ['selftest/mutants/unfix-2e6b8d5.patch', 'selftest/mutants/unfix-2d01ace.patch', 'seeded/C14-a/patch.diff'],
-    'C15': ['selftest/mutants/unfix-2d01ace.patch', 'seeded/C15-a/patch.diff'],
-    'C16': ['selftest/mutants/unfix-b52ed69.patch', 'seeded/C16-a/patch.diff'],
-    'C17': ['seeded/C17-a/patch.diff'],
-    'C18': ['seeded/C18-a/patch.diff'],
-    'C19': ['seeded/C19-a/patch.diff'],
+    'C01': ['seeded/C01-a/patch.diff', 'seeded/C01-b/patch.diff'],
+    'C02': ['seeded/C02-a/patch.diff', 'seeded/C04-a/patch.diff', 'seeded/C02-b/patch.diff'],
+    'C03': ['seeded/C03-a/patch.diff', 'seeded/C09-a/patch.diff', 'seeded/C03-b/patch.diff'],
+    'C04': ['selftest/mutants/unfix-4e31b69.patch', 'seeded/C04-a/patch.diff', 'seeded/C04-b/patch.diff'],
+    'C05': ['seeded/C05-a/patch.diff', 'seeded/C05-b/patch.diff'],
+    'C06': ['seeded/C06-a/patch.diff', 'seeded/C06-b/patch.diff'],
+    'C07': ['seeded/C07-a/patch.diff', 'seeded/C07-b/patch.diff'],
+    'C08': ['selftest/mutants/unfix-928b770.patch', 'selftest/mutants/unfix-05eab20.patch', 'selftest/mutants/unfix-6597d81.patch', 'seeded/C08-a/patch.diff', 'seeded/C08-b/patch.diff'],
+    'C09': ['selftest/mutants/unfix-928b770.patch', 'selftest/mutants/unfix-4e31b69.patch', 'seeded/C09-a/patch.diff', 'seeded/C09-b/patch.diff'],
+    'C10': ['seeded/C10-a/patch.diff', 'seeded/C10-b/patch.diff'],
+    'C11': ['seeded/C11-a/patch.diff', 'seeded/C11-b/patch.diff'],
+    'C12': ['selftest/mutants/unfix-ae1f505.patch', 'seeded/C12-a/patch.diff', 'seeded/C12-b/patch.diff'],
+    'C13': ['selftest/mutants/unfix-4faa0f0.patch', 'seeded/C13-a/patch.diff', 'seeded/C13-b/patch.diff'],
+    'C14': ['selftest/mutants/unfix-2e6b8d5.patch', 'selftest/mutants/unfix-2d01ace.patch', 'seeded/C14-a/patch.diff', 'seeded/C14-b/patch.diff'],
+    'C15': ['selftest/mutants/unfix-2d01ace.patch', 'seeded/C15-a/patch.diff', 'seeded/C15-b/patch.diff'],
+    'C16': ['selftest/mutants/unfix-b52ed69.patch', 'seeded/C16-a/patch.diff', 'seeded/C16-b/patch.diff'],
+    'C17': ['seeded/C17-a/patch.diff', 'seeded/C17-b/patch.diff'],
+    'C18': ['seeded/C18-a/patch.diff', 'seeded/C18-b/patch.diff'],
+    'C19': ['seeded/C19-a/patch.diff', 'seeded/C19-b/patch.diff'],
 }
 
 # negative controls (thorough tier): behaviour-preserving refactorings; the property's quick check must stay silent on each of them.
 NEGATIVE = {
-    'C01': ['selftest/negative/N1-zip-loop-core_verify.patch'],
-    'C02': ['selftest/negative/N1-zip-loop-core_verify.patch', 'selftest/negative/N2-helper-domain-input.patch'],
-    'C04': ['selftest/negative/N4-reorder-rename-proof_verify_init.patch'],
+    'C01': ['selftest/negative/N1-zip-loop-core_verify.patch', 'selftest/negative/N8-msm-helper-iter_mut.patch'],
+    'C02': ['selftest/negative/N1-zip-loop-core_verify.patch', 'selftest/negative/N2-helper-domain-input.patch', 'selftest/negative/N7-hash-call-in-helper.patch',
+            'selftest/negative/N8-msm-helper-iter_mut.patch'],
+    'C03': ['selftest/negative/N9-index-check-closure.patch'],
+    'C04': ['selftest/negative/N4-reorder-rename-proof_verify_init.patch', 'selftest/negative/N7-hash-call-in-helper.patch'],
+    'C05': ['selftest/negative/N9-index-check-closure.patch'],
     'C06': ['selftest/negative/N3-get-okor-match-commitment.patch'],
-    'C08': ['selftest/negative/N3-get-okor-match-commitment.patch', 'selftest/negative/N4-reorder-rename-proof_verify_init.patch'],
+    'C08': ['selftest/negative/N3-get-okor-match-commitment.patch', 'selftest/negative/N4-reorder-rename-proof_verify_init.patch',
+            'selftest/negative/N8-msm-helper-iter_mut.patch', 'selftest/negative/N9-index-check-closure.patch'],
     'C09': ['selftest/negative/N3-get-okor-match-commitment.patch'],
-    'C10': ['selftest/negative/N2-helper-domain-input.patch'],
+    'C10': ['selftest/negative/N2-helper-domain-input.patch', 'selftest/negative/N7-hash-call-in-helper.patch'],
     'C16': ['selftest/negative/N5-C16-helper-correct-rounding.patch'],
     'C18': ['selftest/negative/N6-C18-helper-correct-bits.patch'],
 }
